@@ -98,8 +98,8 @@ def platform(chip):
 def gen_features(r, style):
     feats = []
     # fans on an arbitrary channel subset
-    nf = 0 if style == "temps-only" else r.pick([0, 1, 2, 3, 4, 6])
-    for ch in r.sample(list(range(1, 10)), nf):
+    nf = 0 if style == "temps-only" else r.pick([0, 1, 2, 3, 4, 6, 12])
+    for ch in r.sample(list(range(1, 15)), nf):
         flags = r.pick([1, 1, 1, 1, 3, 0, 4, 5, 7, 2])
         feats.append(f"F{flags}:fan{ch}")
     if r.chance(0.35):
